@@ -215,6 +215,23 @@ class TagCx:
                 for x in a:
                     out |= self._closure_tags(x, fold_term, at_block, depth + 1)
             return out
+        if r[0] == "call" and r[1] == "<indirect>" and len(r) > 4 and len(r[4]) == 1:
+            # the combining function is a captured function pointer: max / min at this creation site
+            f = next(iter(r[4]))
+            if f[0] == "field" and f[1] == ("closure_env",) and f[2].isdigit():
+                for c in fold_term[2][-1]:
+                    if c[0] == "closure" and int(f[2]) < len(c[2]):
+                        fns = set()
+                        for x in c[2][int(f[2])]:
+                            while x[0] == "cast":
+                                x = x[1]
+                            fns.add(x[1] if x[0] == "fnitem" else None)
+                        if fns and fns <= {"std::cmp::max", "std::cmp::min"}:
+                            out = set()
+                            for a in r[2]:
+                                for x in a:
+                                    out |= self._closure_tags(x, fold_term, at_block, depth + 1)
+                            return out
         if r == ("param", 2):  # accumulator
             out = set()
             for x in fold_term[2][1]:
